@@ -379,18 +379,30 @@ Proof.
     apply andb_true_iff in Hs; destruct Hs as [Hs _]; apply andb_true_iff in Hs; tauto.
 Qed.
 
+(* ---------- reload invariance ---------- *)
+Lemma clone_id c : clone c = c.
+Proof. destruct c. reflexivity. Qed.
+Lemma reload_n_id n c : reload_n n c = c.
+Proof. revert c; induction n as [|n IH]; intros c; simpl; [reflexivity|]. rewrite clone_id. apply IH. Qed.
+Lemma live_id c : live c = c.
+Proof. unfold live. apply reload_n_id. Qed.
+Theorem clone_invariant c h : negotiate (clone c) h = negotiate c h.
+Proof. rewrite clone_id. reflexivity. Qed.
+Theorem reload_invariant c h : fst (serve c h) = negotiate c h /\ snd (serve c h) = [].
+Proof. unfold serve. simpl. rewrite live_id. auto. Qed.
+
 (* ---------- lifting to negotiate = negotiate1 on the per-connection configuration ---------- *)
 Theorem prop_of_model i : wf_C41 i = true -> kf_C41 i = 0 -> prop_C41 i (run_C41 i) = true.
 Proof.
   unfold wf_C41, prop_C41, run_C41, kf_C41.
   destruct (decode i) as [[c h]|]; [|discriminate]. intros Hr Hk. apply Z.leb_le in Hr.
-  cbv zeta. unfold negotiate in *.
+  cbv zeta. unfold serve. cbn [fst snd]. rewrite live_id in *. unfold negotiate in *.
   destruct (negotiate1 (eff c h) h) as [code|r v s a n p] eqn:Hn; [reflexivity|].
   destruct (spec_alpn_ok (eff c h) h a) eqn:Ha; [|discriminate].
   pose proof (prop_core (eff c h) h r v s a n p Hr Hn Ha) as Hc.
   unfold enc_outcome.
   change (all_some (map as_B (map VB p))) with (as_LB (vLB p)).
-  destruct r; destruct n; cbn [vbool VT VF]; rewrite as_LB_vLB; exact Hc.
+  destruct r; destruct n; cbn [vbool VT VF vLB map]; rewrite as_LB_vLB; exact Hc.
 Qed.
 
 Theorem version_in_range_conn c h r v s a n p :
@@ -471,7 +483,7 @@ Qed.
 Definition cfg_default (protos : list bytes) : config :=
   {| c_min := 0; c_max := 0; c_prefer_server := true; c_suites := None; c_priority := []; c_protos := protos;
      c_curves := []; c_poodle := false; c_tickets_disabled := false; c_client_auth := 0; c_ecdsa := false;
-     c_rule := None; c_rules := []; c_certs := []; c_cache := 0 |}.
+     c_rule := None; c_rules := []; c_certs := []; c_cache := 0; c_reloads := 0 |}.
 Definition hello_simple (vers : Z) (suites : list Z) (alpn : list bytes) (tk : ticket) : hello :=
   {| h_vers := vers; h_suites := suites; h_comp := [0]; h_curves := [23]; h_points := [0]; h_alpn := alpn;
      h_npn := false; h_sni := []; h_sid := []; h_ticket := tk; h_cache := NoTicket |}.
@@ -505,7 +517,7 @@ Proof. split; vm_compute; reflexivity. Qed.
 
 (* corpus/C41/witness.case: sni-rule-grade-b-ssl3-rc4-only and sni-wildcard-ecdsa-cert *)
 Definition corpus_cfg (rules certs : val) : val :=
-  VL [VZ 0; VZ 0; VZ 1; VL []; VL []; VL []; VL []; VZ 0; VZ 0; VZ 0; VZ 0; VL []; rules; certs; VZ 0].
+  VL [VZ 0; VZ 0; VZ 1; VL []; VL []; VL []; VL []; VZ 0; VZ 0; VZ 0; VZ 0; VL []; rules; certs; VZ 0; VZ 2].
 Definition corpus_sni_grade_b : val :=
   VL [corpus_cfg (VL [VL [VB [97; 46; 99; 111; 109]; VL [VB [66]; VL []; VZ 0; VZ 0]]]) (VL []);
       VL [VZ 768; vLZ [47; 5]; VB [0]; vLZ [23]; VB [0]; VL []; VZ 0; VB [97; 46; 99; 111; 109]; VB [];
@@ -515,7 +527,7 @@ Definition corpus_wildcard_cert : val :=
       VL [VZ 771; vLZ [47; 49195]; VB [0]; vLZ [23]; VB [0]; VL []; VZ 0;
           VB [87; 87; 87; 46; 65; 46; 67; 79; 77; 46]; VB []; VL [VZ 0]; VL [VZ 0]]].
 Lemma corpus_cases_ok :
-  wf_C41 corpus_sni_grade_b = true /\ run_C41 corpus_sni_grade_b = VL [VZ 1; VZ 0; VZ 768; VZ 5; VB []; VZ 0; VL []] /\
+  wf_C41 corpus_sni_grade_b = true /\ run_C41 corpus_sni_grade_b = VL [VL [VZ 1; VZ 0; VZ 768; VZ 5; VB []; VZ 0; VL []]; VL []] /\
   wf_C41 corpus_wildcard_cert = true /\
-  run_C41 corpus_wildcard_cert = VL [VZ 1; VZ 0; VZ 771; VZ 49195; VB []; VZ 0; VL []].
+  run_C41 corpus_wildcard_cert = VL [VL [VZ 1; VZ 0; VZ 771; VZ 49195; VB []; VZ 0; VL []]; VL []].
 Proof. repeat split; vm_compute; reflexivity. Qed.
